@@ -84,6 +84,10 @@ theorem fwdX_endDriver (s : St) (how : Drv) : FwdX (fun j => j ∈ s.opQ) s.ops 
     simp only [this, Bool.false_eq_true, if_false]
     split <;> rfl
 
+theorem fwdX_endDriver' (s : St) (how : Drv) (Y : Nat → Prop) (ops0 : List Op) (h0 : s.ops = ops0)
+    (hY : ∀ j, j ∈ s.opQ → Y j) : FwdX Y ops0 (endDriver s how).ops := by
+  subst h0; exact (fwdX_endDriver s how).weaken hY
+
 /-! ### how the channel list moves -/
 
 /-- no channel is created, no items are added, no receiver comes back to life -/
